@@ -49,7 +49,7 @@ def run(ctx):
     log("[c06] states=%d verify rows=%d (accepted %d) bitmap tampers rejected=%d singles fed=%d admitted=%d pool cases=%d non-empty own aggregates=%d violations=%s" % (
         res["states"], res["verify_rows"], res["verify_rows_accepted"], res["bitmap_tampers_rejected"], res["single_commits_fed"],
         res["single_commits_admitted"], res["pool_cases"], res["own_aggregates_nonempty"], sorted(set(v["key"] for v in res.get("violations") or []))))
-    if not ctx.replay and (res["verify_rows_accepted"] < 20 or res["own_aggregates_nonempty"] < 10 or res["single_commits_admitted"] < 10):
+    if not ctx.violations and (not ctx.replay and (res["verify_rows_accepted"] < 20 or res["own_aggregates_nonempty"] < 10 or res["single_commits_admitted"] < 10)):
         raise Inconclusive("too few acceptable commits / non-empty aggregates exercised: vacuous")
     first = json.loads(open(sf).readline())
     cov = dict(traces_validated_against_impl=res["states"],
